@@ -177,6 +177,10 @@ pub(crate) fn write<'data, A: Arch<Platform = Elf>>(
     layout: &ElfLayout<'data>,
 ) -> Result {
     write_file_contents::<A>(sized_output, layout)?;
+
+    #[cfg(feature = "verif")]
+    crate::verif_api::fault::fault_point("mid-write")?;
+
     if layout.args().common().validate_output {
         crate::validation::validate_bytes(layout, &sized_output.out)?;
     }
@@ -5764,4 +5768,76 @@ fn link_ids(section_id: OutputSectionId) -> &'static [OutputSectionId] {
         .get(section_id.as_usize())
         .map(|def| def.link)
         .unwrap_or_default()
+}
+
+/// Verification hook (C23): runs the real `TableWriter::process_resolution` against buffers that
+/// hold `given` entries of each table and reports how many entries of each table were consumed, in
+/// the order GOT, .plt.got, .rela.plt, .rela.dyn (general), .rela.dyn (relative), .relr.dyn. Adds
+/// no behaviour to the linker.
+#[cfg(feature = "verif")]
+pub(crate) fn verif_consumed_by_resolution(
+    output_kind: OutputKind,
+    resolution: &Resolution<Elf>,
+    args: &ElfArgs,
+    given: u64,
+) -> Result<[u64; 6]> {
+    let output_sections = OutputSections::<Elf>::with_base_address(0);
+    let (output_order, _program_segments) = output_sections.output_order(output_kind);
+    let mut mem_sizes = output_sections.new_part_map::<u64>();
+    *mem_sizes.get_mut(part_id::GOT) = given * elf::GOT_ENTRY_SIZE;
+    *mem_sizes.get_mut(part_id::PLT_GOT) = given * elf::PLT_ENTRY_SIZE;
+    *mem_sizes.get_mut(part_id::RELA_PLT) = given * elf::RELA_ENTRY_SIZE;
+    *mem_sizes.get_mut(part_id::RELA_DYN_GENERAL) = given * elf::RELA_ENTRY_SIZE;
+    *mem_sizes.get_mut(part_id::RELA_DYN_RELATIVE) = given * elf::RELA_ENTRY_SIZE;
+    *mem_sizes.get_mut(part_id::RELR_DYN) = given * elf::RELR_ENTRY_SIZE;
+
+    let mut total_bytes_allocated = 0;
+    mem_sizes.output_order_map(
+        &output_order,
+        &output_sections,
+        |_part_id, alignment, &size| {
+            total_bytes_allocated = alignment.align_up(total_bytes_allocated) + size;
+        },
+    );
+    total_bytes_allocated = crate::alignment::USIZE.align_up(total_bytes_allocated);
+    let mut all_mem = vec![0_u64; total_bytes_allocated as usize / size_of::<u64>()];
+    let mut all_mem: &mut [u8] = transmute_mut!(all_mem.as_mut_slice());
+    let mut offset = 0;
+    let mut buffers = mem_sizes.output_order_map(
+        &output_order,
+        &output_sections,
+        |_part_id, alignment, &size| {
+            let aligned_offset = alignment.align_up(offset);
+            all_mem
+                .split_off_mut(..(aligned_offset - offset) as usize)
+                .unwrap();
+            offset = aligned_offset + size;
+            all_mem.split_off_mut(..size as usize).unwrap()
+        },
+    );
+
+    let dynsym_writer = SymbolTableWriter::new_dynamic(0, &mut buffers, &output_sections);
+    let debug_symbol_writer = SymbolTableWriter::new(0, &mut buffers, &output_sections);
+    let mut table_writer = TableWriter::new(
+        output_kind,
+        0..100,
+        &mut buffers,
+        dynsym_writer,
+        debug_symbol_writer,
+        0,
+        args.is_relr_enabled(),
+    );
+    table_writer.process_resolution::<crate::elf_x86_64::ElfX86_64>(None, args, resolution)?;
+    Ok([
+        given - table_writer.got.len() as u64,
+        given - table_writer.plt_got.len() as u64 / elf::PLT_ENTRY_SIZE,
+        given - table_writer.rela_plt.len() as u64,
+        given - table_writer.rela_dyn_general.len() as u64,
+        given - table_writer.rela_dyn_relative.len() as u64,
+        given
+            - table_writer
+                .relr_dyn
+                .as_ref()
+                .map_or(given, |r| r.len() as u64),
+    ])
 }
